@@ -35,6 +35,8 @@ def run_property(pid, tier, root, seed, selftest=True, out_dir=None, evidence_di
             chk.assume(a)
         extra = {}
         if tier == "thorough":
+            from .props import integration
+            integration.run(chk)
             extra["exhaustive"] = True
             from . import thorough
             extra.update(thorough.run(chk, mod, seed, selftest=selftest))
